@@ -284,19 +284,27 @@ func (s *simscreen) draw() {
 }
 
 func (s *simscreen) EnableMouse(...MouseFlags) {
+	s.Lock()
 	s.mouse = true
+	s.Unlock()
 }
 
 func (s *simscreen) DisableMouse() {
+	s.Lock()
 	s.mouse = false
+	s.Unlock()
 }
 
 func (s *simscreen) EnablePaste() {
+	s.Lock()
 	s.paste = true
+	s.Unlock()
 }
 
 func (s *simscreen) DisablePaste() {
+	s.Lock()
 	s.paste = false
+	s.Unlock()
 }
 
 func (s *simscreen) EnableFocus() {
@@ -511,24 +519,35 @@ func (s *simscreen) StopQ() <-chan struct{} {
 }
 
 func (s *simscreen) SetTitle(title string) {
+	s.Lock()
 	s.title = title
+	s.Unlock()
 }
 
 func (s *simscreen) GetTitle() string {
+	s.Lock()
+	defer s.Unlock()
 	return s.title
 }
 
 func (s *simscreen) SetClipboard(data []byte) {
+	s.Lock()
 	s.clipboard = data
+	s.Unlock()
 }
 
 func (s *simscreen) GetClipboard() {
-	if s.clipboard != nil {
-		ev := NewEventClipboard(s.clipboard)
+	s.Lock()
+	data := s.clipboard
+	s.Unlock()
+	if data != nil {
+		ev := NewEventClipboard(data)
 		s.postEvent(ev)
 	}
 }
 
 func (s *simscreen) GetClipboardData() []byte {
+	s.Lock()
+	defer s.Unlock()
 	return s.clipboard
 }
